@@ -12,11 +12,13 @@ func init() {
 	Register("C01", Family{Gen: func(c *Ctx) {
 		genFaults(c, []string{"err", "perr", "pval", "cancel"})
 		genPipeDyn(c, []string{"err", "perr", "pval", "cancel"}) // FlatMap family (pipedyn.go)
-	}, Exec: execPipeOrDyn})
+		genJoinLife(c, []string{"err", "perr", "pval", "cancel"}) // lifecycle of the joins (joinlife.go)
+	}, Exec: execPipeDynJL})
 	Register("C03", Family{Gen: func(c *Ctx) {
 		genFaults(c, []string{"err", "perr", "pval", "eoferr", "peof", "errctx"})
 		genPipeDyn(c, []string{"err", "perr", "pval", "eoferr", "peof", "errctx"}) // FlatMap family (pipedyn.go)
-	}, Exec: execPipeOrDyn})
+		genJoinLife(c, []string{"err", "perr", "pval", "eoferr", "peof", "errctx"}) // lifecycle of the joins (joinlife.go)
+	}, Exec: execPipeDynJL})
 }
 
 // callsOf runs the case fault-free and returns the number of call positions of its (single) run.
